@@ -34,6 +34,9 @@ pub struct Pt {
     /// value = grid * 10 + perturbation (units 0.1); the first point is forced positive
     pub grid: i16,
     pub perturb: i8,
+    /// query the live generators (not a copy) for the current drawdown after this point
+    #[serde(default)]
+    pub query: bool,
 }
 
 #[derive(Debug, Clone, Serialize, Deserialize)]
@@ -100,6 +103,10 @@ impl Scan {
     }
 }
 
+fn queries(case: &CurveCase) -> Vec<usize> {
+    case.points.iter().enumerate().filter(|(_, p)| p.query).map(|(i, _)| i).collect()
+}
+
 fn conv(d: &Drawdown) -> Dd {
     Dd { depth: d.value, start: d.time_start.timestamp_millis(), end: d.time_end.timestamp_millis() }
 }
@@ -162,10 +169,11 @@ impl Check for DrawdownScan {
                     1 => -5i16..1, // rare: most curves stay positive
                 ],
                 prop_oneof![6 => Just(0i8), 2 => -1i8..=1, 1 => -9i8..=9],
+                prop::bool::weighted(0.15),
             ),
             1..max,
         )
-        .prop_map(|v| CurveCase { points: v.into_iter().map(|(dt, grid, perturb)| Pt { dt, grid, perturb }).collect() })
+        .prop_map(|v| CurveCase { points: v.into_iter().map(|(dt, grid, perturb, query)| Pt { dt, grid, perturb, query }).collect() })
         .boxed()
     }
 
@@ -204,9 +212,13 @@ impl Check for DrawdownScan {
                 if got != exp {
                     bad!(format!("{tag}:completed-drawdown"), "point {i} ({t},{v}): update returned {got:?}, peak-to-trough scan gives {exp:?} (curve {pts:?})");
                 }
-                let cur = g.clone().generate().map(|d| conv(&d));
+                let live = case.points[i].query;
+                let cur = if live { g.generate() } else { g.clone().generate() }.map(|d| conv(&d));
                 if cur != scan.in_progress() {
-                    bad!(format!("{tag}:current-drawdown"), "point {i} ({t},{v}): current drawdown {cur:?}, scan gives {:?} (curve {pts:?})", scan.in_progress());
+                    bad!(format!("{tag}:current-drawdown"), "point {i} ({t},{v}): current drawdown {cur:?} (live query: {live}), scan gives {:?} (curve {pts:?}, live queries after {:?})", scan.in_progress(), queries(case));
+                }
+                if live && g.generate().map(|d| conv(&d)) != cur {
+                    bad!(format!("{tag}:current-drawdown-query-not-idempotent"), "point {i} ({t},{v}): asking twice for the current drawdown gives {cur:?} then something else");
                 }
                 let max = maxg.generate().map(|m| conv(&m.0));
                 let mean = meang.generate().map(|m| (m.mean_drawdown, m.mean_drawdown_ms));
@@ -220,10 +232,19 @@ impl Check for DrawdownScan {
         {
             let bal = |v: Decimal| Balance::new(v, v);
             let mut g = TearSheetAssetGenerator::init(&Timed::new(bal(pts[0].1), ts(pts[0].0)));
+            // a second generator that is asked for interim sheets while it keeps being updated
+            let mut live = g.clone();
             let mut scan = Scan::new(pts[0].0, pts[0].1);
             for (i, (t, v)) in pts.iter().enumerate().skip(1) {
                 g.update_from_balance(Snapshot(&AssetBalance { asset: 0u8, balance: bal(*v), time_exchange: ts(*t) }));
+                live.update_from_balance(Snapshot(&AssetBalance { asset: 0u8, balance: bal(*v), time_exchange: ts(*t) }));
                 scan.step(*t, *v);
+                if case.points[i].query {
+                    let sheet = live.generate();
+                    if sheet.drawdown.as_ref().map(conv) != scan.in_progress() || sheet.balance_end != Some(bal(*v)) {
+                        bad!("asset-sheet:interim-current-drawdown", "balance {i}: interim sheet of a live generator reports drawdown {:?} / balance_end {:?}, scan {:?} / {v} (curve {pts:?}, interim sheets after {:?})", sheet.drawdown, sheet.balance_end, scan.in_progress(), queries(case));
+                    }
+                }
                 // one generate() per generator clone (generate folds the in-progress drawdown in)
                 let sheet = g.clone().generate();
                 let mut all = scan.completed.clone();
@@ -248,6 +269,7 @@ impl Check for DrawdownScan {
         // ---- layer (d): TearSheetGenerator over the cumulative PnL of closed positions ----------
         {
             let mut g = TearSheetGenerator::init(ts(T0_MS));
+            let mut live = g.clone();
             let mut scan: Option<Scan> = None;
             let mut prev = Decimal::ZERO;
             for (i, (t, v)) in pts.iter().enumerate() {
@@ -265,6 +287,7 @@ impl Check for DrawdownScan {
                 };
                 prev = *v;
                 g.update_from_position(&exited);
+                live.update_from_position(&exited);
                 match &mut scan {
                     None => scan = Some(Scan::new(*t, *v)),
                     Some(s) => {
@@ -272,6 +295,12 @@ impl Check for DrawdownScan {
                     }
                 }
                 let s = scan.as_ref().unwrap();
+                if case.points[i].query {
+                    let sheet = live.generate(Decimal::ZERO, Daily);
+                    if sheet.pnl_drawdown.as_ref().map(conv) != s.in_progress() || sheet.pnl != *v {
+                        bad!("instrument-sheet:interim-current-drawdown", "position {i}: interim sheet of a live generator reports pnl_drawdown {:?} / pnl {}, scan {:?} / {v} (curve {pts:?}, interim sheets after {:?})", sheet.pnl_drawdown, sheet.pnl, s.in_progress(), queries(case));
+                    }
+                }
                 let sheet = g.clone().generate(Decimal::ZERO, Daily);
                 if sheet.pnl != *v {
                     bad!("instrument-sheet:pnl", "after {} closed positions pnl {} != cumulative {v}", i + 1, sheet.pnl);
@@ -313,13 +342,29 @@ impl Check for DrawdownScan {
         rep.class_if(equal_consecutive, "equal_consecutive_values");
         rep.class_if(pts.iter().any(|(_, v)| *v <= Decimal::ZERO), "non_positive_value_after_positive_peak");
         rep.class_if(scan.completed.is_empty() && scan.in_progress().is_none(), "monotone_no_drawdown");
+        // an interim query during a decline that deepens afterwards
+        let mut probe = Scan::new(pts[0].0, pts[0].1);
+        let (mut asked_at_depth, mut deepened_after_query) = (None, false);
+        for (i, (t, v)) in pts.iter().enumerate().skip(1) {
+            if probe.step(*t, *v).is_some() || probe.depth.is_zero() {
+                asked_at_depth = None;
+            }
+            if asked_at_depth.is_some_and(|d| probe.depth > d) {
+                deepened_after_query = true;
+            }
+            if case.points[i].query && !probe.depth.is_zero() {
+                asked_at_depth = Some(probe.depth);
+            }
+        }
+        rep.class_if(deepened_after_query, "interim_query_then_deeper_decline");
+        rep.class_if(queries(case).len() >= 2, "two_or_more_interim_queries");
         rep.nontrivial = scan.completed.len() >= 2 && scan.in_progress().is_some();
         rep
     }
 }
 
 pub fn run(ctx: &mut Ctx) {
-    ctx.rule = "drawdown_scan: 1..60|150 timed points, strictly increasing times, values from a small grid (1..7 mostly, up to 200, a few <= 0 after the first) with +-0.1 perturbations so that equal consecutive values, exact recoveries to the peak and new highs by one tick are common; first value > 0. Fed to DrawdownGenerator (default and init), Max/Mean generators, TearSheetAssetGenerator (balances) and TearSheetGenerator (cumulative PnL of closed positions), each compared after every point with an independent peak-to-trough scan. non-trivial = >= 2 completed drawdowns and one in progress at the end; distinct by hash of the case.".into();
+    ctx.rule = "drawdown_scan: 1..60|150 timed points, strictly increasing times, values from a small grid (1..7 mostly, up to 200, a few <= 0 after the first) with +-0.1 perturbations so that equal consecutive values, exact recoveries to the peak and new highs by one tick are common; first value > 0. Fed to DrawdownGenerator (default and init), Max/Mean generators, TearSheetAssetGenerator (balances) and TearSheetGenerator (cumulative PnL of closed positions), each compared after every point with an independent peak-to-trough scan; after 15% of the points the live generators themselves (not copies) are asked for the current drawdown / an interim tear sheet and keep being updated afterwards. non-trivial = >= 2 completed drawdowns and one in progress at the end; distinct by hash of the case.".into();
     ctx.assumptions = vec![
         "running maxima are positive (first value > 0); later values may be <= 0".into(),
         "tear-sheet generate() is called once per generator clone, as the engine API does (generate folds the in-progress drawdown into max/mean)".into(),
